@@ -127,7 +127,16 @@ def run_native(C, nargs):
             res = call(args)
         else:
             fn = real_function(C.target)
-            res = fn(**args)
+            import inspect
+            call = dict(args)
+            try:
+                sig = inspect.signature(fn)
+                for pn, prm in sig.parameters.items():
+                    if prm.kind == inspect.Parameter.VAR_KEYWORD and pn in call and isinstance(call[pn], dict):
+                        call.update(call.pop(pn))       # a contract parameter standing for **kwargs
+            except (TypeError, ValueError):
+                pass
+            res = fn(**call)
         return "return", res, args
     except Exception as e:  # the verified code's exceptions are outcomes
         name = type(e).__name__
